@@ -59,6 +59,26 @@ def write_replay(prop, unit, ob, confirmed, detail):
     return path
 
 
+def _faithful(model):
+    """is the native rendering of this solver model the same input the solver talks about?"""
+    from fractions import Fraction
+    if model is None:
+        return False
+    if isinstance(model, str):
+        return False
+    if isinstance(model, dict):
+        if "real" in model and len(model) == 1:
+            try:
+                q = Fraction(model["real"])
+                return abs(q) < 10 ** 300 and Fraction(float(q)) == q
+            except Exception:
+                return False
+        return all(_faithful(v) if not (k in ("rec", "enum")) else True for k, v in model.items())
+    if isinstance(model, (list, tuple)):
+        return all(_faithful(v) for v in model)
+    return True
+
+
 DEP_KINDS = ("escape", "safety", "float-range", "call-pre", "exc-justified")
 
 
@@ -141,12 +161,16 @@ def conclude(prop, tier, seed, results, wall, reg):
             if found is not None:
                 confirmed, detail = True, found
         if not confirmed and r.get("engine") == "pyvc" and not os.environ.get("VERIF_STRICT_REFUTATIONS") \
+                and all(_faithful(o.get("model")) for o in unknown) \
                 and all(isinstance(ran.get(o["name"]), str) and ran[o["name"]].startswith("the model does not reproduce natively") for o in unknown):
             # Engine / modular incompleteness, not a violation: every counter-model is a complete,
             # well-typed input on which the REAL function satisfies every clause of its contract,
             # and the native search finds no failing input either.  A refutation that the code itself
             # contradicts says that the VC (a callee contract weaker than the callee, a loop cut, an
             # encoding gap) is too weak to prove the obligation - "a failed proof means undecided".
+            # Only for models the replay renders FAITHFULLY: every real is exactly a float and there is
+            # no string (strings are abstracted by uninterpreted recogniser predicates; a real that is
+            # not a float is replayed as the nearest float, i.e. as a different input - seeded C08e).
             # (False alarm found by benign refactoring BEN-R7B1-1.)  Refutations whose model cannot
             # be turned into an input, and regex / frame / lemma refutations, are still reported.
             for o in unknown:
